@@ -1,8 +1,7 @@
 ---- MODULE t1 ----
-EXTENDS IsaL
-ASSUME PrintT(<<"mul", G8Mul(2, 141), G8Mul(3,7), G8Inv(2), G8Mul(2, G8Inv(2)), G8Mul(77, G8Inv(77))>>)
-ASSUME PrintT(<<"rows", RsRow(4, 5), CauchyRow(3,4)>>)
-ASSUME PrintT(<<"inv", SurvivorsInvertible(4, 4, 2, {0,1}), SurvivorsInvertible(4, 9, 7, {0,1,2,3,4,5,6}), SurvivorsInvertible(7, 9, 7, {0,1,2,3,4,5,6})>>)
+EXTENDS Wire
+ASSUME PrintT(<<"frag", Fragment(6, 2, 1, 1, 2, <<1,2,3,4,5>>, 2, <<1, 1540>>, <<1,0>>, FALSE)>>)
+ASSUME PrintT(<<"acc", HeaderAccepted(Fragment(6, 2, 1, 1, 2, <<1,2,3,4,5>>, 2, <<1, 1540>>, <<1,0>>, FALSE))>>)
 VARIABLE x
 Init == x = 0
 Next == UNCHANGED x
